@@ -68,7 +68,8 @@ struct cell
 	int8_t wtid; /* -1 none */
 	uint8_t watomic, freed;
 	const void *wpc;
-	uint32_t rclk[SIMTHR_MAX];
+	uint32_t rclk[SIMTHR_MAX];  /* plain reads */
+	uint32_t arclk[SIMTHR_MAX]; /* atomic loads: conflict with plain writes only (atomic load vs atomic RMW/store is never a data race) */
 	const void *rpc[SIMTHR_MAX];
 	/* release clock when the location is used as an atomic variable */
 	uint32_t avc[SIMTHR_MAX];
@@ -163,18 +164,28 @@ static void access(uintptr_t addr, int size, int is_write, int is_atomic, const 
 		{
 			/* conflict with earlier reads */
 			for (int u = 0; u <= g_nthreads; u++)
+			{
 				if (u != t && c->rclk[u] > g_vc[t][u])
 					report((const void *)a, c, u, 0, 0, c->rpc[u], 1, is_atomic, pc, 0);
+				else if (u != t && !is_atomic && c->arclk[u] > g_vc[t][u])
+					report((const void *)a, c, u, 0, 1, c->rpc[u], 1, 0, pc, 0);
+			}
 			c->wtid = (int8_t)t;
 			c->wclk = g_vc[t][t];
 			c->watomic = (uint8_t)is_atomic;
 			c->wpc = pc;
 			if (!is_atomic)
+			{
 				memset(c->rclk, 0, sizeof c->rclk);
+				memset(c->arclk, 0, sizeof c->arclk);
+			}
 		}
 		else
 		{
-			c->rclk[t] = g_vc[t][t];
+			if (is_atomic)
+				c->arclk[t] = g_vc[t][t];
+			else
+				c->rclk[t] = g_vc[t][t];
 			c->rpc[t] = pc;
 		}
 	}
